@@ -20,6 +20,7 @@
 import DecimalModel.L0Decimal
 import DecimalModel.Gen.Facts
 import Proofs.DecOps
+import Proofs.Mul
 import Proofs.GenTables
 
 namespace Decimal.GenKernels
@@ -544,5 +545,17 @@ theorem uadd_eq_wf (z x y : WDec) (sameZX sameZY : Bool)
   · split
     · exact (L0.add_spec _ _ (L0.shl_spec _ _ hwx).2.1 hwy).2.1
     · exact (L0.add_spec _ _ hwx hwy).2.1
+
+/-- **umul_eq_wf.** For operands with words below the base and thresholds ≥ 1 the hypothesis of `umul_eq` holds
+    (the product / square has words below the base: `mul_spec`, `sqr_spec`). -/
+theorem umul_eq_wf (z x y : WDec) (xIsY : Bool) (t : Thr) (hx : I32 x.exp) (hy : I32 y.exp)
+    (hwx : L0.WF x.mant) (hwy : L0.WF y.mant) (hk : 1 ≤ t.kmul) (hks : 1 ≤ t.ksqr) :
+    W.umul z x y xIsY t = umulG z x y xIsY t := by
+  refine umul_eq z x y xIsY t hx hy (fun m' s h => dnorm_shift_le _ m' s ?_ h)
+  cases xIsY
+  · simp only [Bool.false_eq_true, if_false]
+    exact (L0.mul_spec t.kmul hk _ x.mant y.mant hwx hwy (by omega)).2.1
+  · simp only [if_true]
+    exact (L0.sqr_spec t.bsqr t.ksqr t.kmul hks hk _ x.mant hwx (Nat.le_refl _)).2.1
 
 end Decimal.GenKernels
